@@ -98,6 +98,24 @@ func (c *Controller) Files() map[int]*File {
 }
 
 // AutoID hands out handle ids for controllers that do not script them.
+// CloseCounts returns a copy of the Close calls entered per handle.
+func (c *Controller) CloseCounts() map[int]int {
+	c.mu.Lock()
+	defer c.mu.Unlock()
+	m := make(map[int]int, len(c.Closes))
+	for k, v := range c.Closes {
+		m[k] = v
+	}
+	return m
+}
+
+// UACs returns a copy of the use-after-close list.
+func (c *Controller) UACs() []string {
+	c.mu.Lock()
+	defer c.mu.Unlock()
+	return append([]string{}, c.UAC...)
+}
+
 func (c *Controller) AutoID() int { return int(atomic.AddInt64(&c.nextID, 1)) }
 
 func (c *Controller) newFile(id int, mode string, path []string) *File {
